@@ -98,6 +98,35 @@ def _sqrt_rational(c):
     return None
 
 def poly_sqrt(p: Poly):
+    """g with g*g == p modulo the relations, or None"""
+    g = _poly_sqrt(p)
+    if g is not None: return g
+    # the normal form eliminates sin^2; try the equivalent form with cos^2 eliminated instead
+    c = C()
+    for v, (k, tail) in list(c.rules.items()):
+        if k != 2 or c.kind[v] != 'sin': continue
+        # tail = 1 - cos^2
+        cv = [u for u in tail.vars()]
+        if len(cv) != 1: continue
+        cv = cv[0]
+        if p.degree_in(cv) < 2: continue
+        # substitute cos^2 -> 1 - sin^2 (raw, no reduction)
+        out = Poly({})
+        for m, cf in p.t.items():
+            e = dict(m).get(cv, 0)
+            rest = tuple((u, ee) for u, ee in m if u != cv)
+            term = Poly({rest + (((cv, e % 2),) if e % 2 else ()): cf})
+            term = Poly({tuple(sorted(mm)): cc for mm, cc in term.t.items()})
+            base = Poly.const(1) - Poly.var(v, 2)
+            for _ in range(e // 2): term = term.rawmul(base)
+            out = out + term
+        g = _poly_sqrt(out)
+        if g is not None and A.reduce_poly(g.rawmul(g)) == A.reduce_poly(p):
+            return g
+    return None
+
+
+def _poly_sqrt(p: Poly):
     """g with g*g == p, or None (uses sympy.factor_list; result re-checked)"""
     if p.is_zero(): return p
     if p.is_const():
@@ -278,10 +307,14 @@ def _multiple_angle(s: Frac, c: Frac, k: int):
             bs, bc = 2 * bs * bc, bc * bc - bs * bs
     return (-S if neg else S), Cc
 
-def angle_base(h):
-    """declare h as an angle base (so sin/cos of integer multiples of h expand)"""
+def angle_base(h, principal=False):
+    """declare h as an angle base (so sin/cos of integer multiples of h expand).
+    principal: |h| < pi/2 is a contract precondition, enabling atan(sin h / cos h) = h"""
     h = _strip(Frac.of(h))
     c = C()
+    if principal:
+        if not hasattr(c, 'principal'): c.principal = []
+        c.principal.append(h)
     for (b, s, co) in c.angle_bases:
         q = _ratio_const(h, b)
         if q is not None and q.denominator == 1:
@@ -356,6 +389,9 @@ def exp(arg):
     vid = c.newvar(f'exp{len(c.exp_bases)}', 'exp', arg=arg)
     E = Frac.var(vid)
     c.add_fact(mkcond('gt', E))
+    # convexity: e^a >= 1 + a  (hence (e^a - 1) has the sign of a)
+    c.add_fact(mkcond('ge', E - 1 - arg))
+    c.add_fact(mkcond('ge', (E - 1) * Frac(arg.num) * Frac(arg._den_poly())))
     c.numeric[vid] = lambda val, arg=arg: mpmath.exp(arg.evalf(val))
     c.deriv[vid] = lambda wrt, cache, arg=arg, E=E: E * diff(arg, wrt, cache)
     c.exp_bases.append((arg, E))
@@ -408,6 +444,14 @@ def atan(rho):
     hit = _lookup('atan', -rho)
     if hit is not None:
         return Frac(-hit.num, hit.den, hit.guards | g0)
+    # atan(tan h) = h on the principal branch
+    for h in getattr(c, 'principal', []):
+        for (b, s, co) in c.angle_bases:
+            q = _ratio_const(h, b)
+            if q is not None and q.denominator == 1:
+                S_, C_ = _multiple_angle(s, co, int(q))
+                if not C_.num.is_zero() and (S_ / C_).same(rho):
+                    return Frac(h.num, h.den, h.guards | g0)
     vid = c.newvar(f'atan{len(c.names)}', 'atan', arg=rho)
     Aa = Frac.var(vid)
     P = pi()
